@@ -596,10 +596,14 @@ func (c *check) initB() {
 	for _, sh := range shorthandNames {
 		c.bCases = append(c.bCases, bCase{sh: sh, value: "\x00generic", feats: []string{"shorthand:" + sh}})
 	}
-	c.nB = (int64(len(c.bCases)) + bBatch - 1) / bBatch
+	c.nB1 = (int64(len(c.bCases)) + bBatch - 1) / bBatch
+	c.nB = c.nB1 + c.initBLayers()
 }
 
 func (c *check) describeB(u int64) any {
+	if u >= c.nB1 {
+		return c.describeBLayers(u - c.nB1)
+	}
 	lo, hi := u*bBatch, (u+1)*bBatch
 	if hi > int64(len(c.bCases)) {
 		hi = int64(len(c.bCases))
@@ -635,6 +639,10 @@ func declMap(l []validation.Declaration) (m map[string]string, imp map[string]bo
 }
 
 func (c *check) runB(u int64, ctx *engine.Ctx) {
+	if u >= c.nB1 {
+		c.runBLayers(u-c.nB1, ctx)
+		return
+	}
 	lo, hi := u*bBatch, (u+1)*bBatch
 	if hi > int64(len(c.bCases)) {
 		hi = int64(len(c.bCases))
